@@ -5,6 +5,7 @@ import (
 	"fmt"
 	"strings"
 
+	"github.com/junioryono/godi/v4"
 	"github.com/junioryono/godi/v4/verifmc/kit"
 	"github.com/junioryono/godi/v4/verifmc/mc"
 )
@@ -106,12 +107,13 @@ func c08Enumerate(r *mc.Report, n int, lifes [][]string, shard, nshards int) {
 
 func init() {
 	mc.Register(&mc.Check{
-		Prop: "C08",
-		Rule: "all dependency DAGs on <=3 services (4 in thorough; quick covers 4 services with uniform lifetimes) x every subset of the non-root services left unregistered x all lifetime assignments x dependency form {plain, keyed, group} x optional-ness {no edge, every edge, exactly the edges into unregistered services} x dependent form {constructor with In struct, positional constructor, void initializer, error-only initializer}; oracle: Build must succeed iff the model finds no lifetime conflict and no missing required dependency; after a successful Build every registered identity is resolved from a scope, its child and again and no resolution / scope creation may fail with 'service not found' (or fail at all when the model says valid). distinct = (size, edge forms, verdict, model verdict) classes.",
+		Prop:        "C08",
+		Rule:        "all dependency DAGs on <=3 services (4 in thorough; quick covers 4 services with uniform lifetimes) x every subset of the non-root services left unregistered x all lifetime assignments x dependency form {plain, keyed, group} x optional-ness {no edge, every edge, exactly the edges into unregistered services} x dependent form {constructor with In struct, positional constructor, void initializer, error-only initializer}; oracle: Build must succeed iff the model finds no lifetime conflict and no missing required dependency; after a successful Build every registered identity is resolved from a scope, its child and again and no resolution / scope creation may fail with 'service not found' (or fail at all when the model says valid). plus two-output (multiple-return / result-object) dependents x lifetimes x dependency registered or not x Remove of the first / second / both outputs x re-adding the first type. distinct = (size, edge forms, verdict, model verdict) classes.",
 		Assume:      []string{"built-in injectables are context.Context, Scope and Provider without a key"},
 		MinOutcomes: 6,
 		Jobs: func(tier string) []mc.Job {
 			jobs := []mc.Job{
+				{Name: "c08-multi-remove", Run: c08Multi},
 				{Name: "c08-n1", Run: func(r *mc.Report) { c08Enumerate(r, 1, lifeAssignments(1), 0, 1) }},
 				{Name: "c08-n2", Run: func(r *mc.Report) { c08Enumerate(r, 2, lifeAssignments(2), 0, 1) }},
 			}
@@ -133,3 +135,131 @@ func init() {
 		},
 	})
 }
+
+// ---- multi-output dependents combined with Remove (registration sets reached through removal)
+
+type c08MultiCase struct {
+	Life   string `json:"life"`
+	Form   string `json:"form"` // multi | resobj
+	DepReg bool   `json:"dep_registered"`
+	Remove string `json:"remove"` // none | first | second | both
+	Readd  bool   `json:"readd_first"`
+}
+
+func c08Multi(r *mc.Report) {
+	run := func(c c08MultiCase) {
+		r0 := kit.Reg{ID: 0, Life: c.Life, Outs: []kit.Out{{T: "P0"}, {T: "P1"}}, Deps: []kit.Dep{{T: "P2"}}}
+		secondKey := ""
+		if c.Form == "resobj" {
+			r0.ResObj, r0.In = true, true
+			r0.Outs[1].Key = "k"
+			secondKey = "k"
+		}
+		spec := kit.Spec{Regs: []kit.Reg{r0}}
+		if c.DepReg {
+			spec.Regs = append(spec.Regs, kit.Reg{ID: 1, Life: "singleton", Outs: []kit.Out{{T: "P2"}}})
+		}
+		if c.Readd {
+			spec.Regs = append(spec.Regs, kit.Reg{ID: 2, Life: c.Life, Outs: []kit.Out{{T: "P0"}}})
+		}
+		var e *Env
+		var m *Model
+		s := seqOnce(func() {
+			e = NewEnv(&spec)
+			e.Coll = godiNewCollection()
+			m = &Model{Spec: &spec, Services: map[Ident]RegOut{}, Groups: map[Ident][]RegOut{}, regs: map[int]*kit.Reg{}}
+			for i := range spec.Regs {
+				rp := &spec.Regs[i]
+				if rp.ID == 2 {
+					continue
+				}
+				e.AddErrs = append(e.AddErrs, e.W.Add(e.Coll, rp))
+				m.AddErr = append(m.AddErr, m.Add(rp))
+			}
+			rm := func(t, k string) {
+				if k == "" {
+					e.Coll.Remove(kit.TypeOf(t))
+				} else {
+					e.Coll.RemoveKeyed(kit.TypeOf(t), k)
+				}
+				m.Remove(t, k)
+			}
+			if c.Remove == "first" || c.Remove == "both" {
+				rm("P0", "")
+			}
+			if c.Remove == "second" || c.Remove == "both" {
+				rm("P1", secondKey)
+			}
+			if c.Readd {
+				rp := &spec.Regs[len(spec.Regs)-1]
+				e.AddErrs = append(e.AddErrs, e.W.Add(e.Coll, rp))
+				m.AddErr = append(m.AddErr, m.Add(rp))
+			}
+			p, did := kit.Try(func() { e.Prov, e.BuildErr = e.Coll.Build() })
+			if did {
+				e.BuildPanic = p
+			}
+			if e.Prov != nil {
+				e.Do(Op{Kind: "scope", Bind: "s1"})
+				probeUniverse(e, "s1", []string{"P0", "P1", "P2"}, []string{"", "k"}, nil)
+				e.Do(Op{Kind: "close", Scope: ""})
+			}
+		})
+		r.Executions++
+		r.Validated++
+		r.States++
+		r.Transitions += int64(len(e.Results) + 3)
+		cc := cfgCase{N: 1, Life: []string{c.Life}, Target: []string{"plain"}}
+		// the resolvability clause speaks about registered identities only
+		all := e.Results
+		var reg []*Res
+		for _, rr := range all {
+			if rr.Op.Kind == "get" {
+				if _, ok := m.Services[Ident{T: rr.Op.T, Key: rr.Op.Key}]; !ok {
+					continue
+				}
+			}
+			reg = append(reg, rr)
+		}
+		e.Results = reg
+		fs := c08Oracle(cc, e, m)
+		e.Results = all
+		if e.Prov != nil {
+			fs = append(fs, e.ProbeOracle(m)...)
+		}
+		fs = append(fs, genericFindings(nil, s)...)
+		v := "ok"
+		if e.BuildErr != nil {
+			v = kit.ClassOf(e.BuildErr)
+		}
+		r.Outcome(fmt.Sprintf("multi form=%s remove=%s dep=%v verdict=%s model=%s", c.Form, c.Remove, c.DepReg, v, m.Verdict()))
+		for _, f := range fs {
+			f.F["dependent"] = c.Form
+			f.F["remove"] = c.Remove
+			r.Violate(f.F, f.Detail+fmt.Sprintf("\n  two-output %s constructor (%s) depending on P2 (registered=%v), Remove=%s, re-add first=%v", c.Form, c.Life, c.DepReg, c.Remove, c.Readd), c)
+		}
+	}
+	if r.Only != nil {
+		var c c08MultiCase
+		if json.Unmarshal(r.Only, &c) == nil && c.Form != "" {
+			run(c)
+		}
+		return
+	}
+	for _, life := range []string{"singleton", "scoped", "transient"} {
+		for _, form := range []string{"multi", "resobj"} {
+			for _, dep := range []bool{true, false} {
+				for _, rm := range []string{"none", "first", "second", "both"} {
+					for _, readd := range []bool{false, true} {
+						if readd && rm != "first" && rm != "both" {
+							continue
+						}
+						run(c08MultiCase{Life: life, Form: form, DepReg: dep, Remove: rm, Readd: readd})
+					}
+				}
+			}
+		}
+	}
+}
+
+func godiNewCollection() godi.Collection { return godi.NewCollection() }
